@@ -22,7 +22,9 @@ TIn ==
               ELSE (IF Len(Ev.names) # Len(cur.want.names) THEN {"Reader.record-count"} ELSE
                       (IF [i \in 1..Len(Ev.names) |-> Ev.names[i]] # [i \in 1..Len(cur.want.names) |-> Trunc(cur.want.names[i])] THEN {"Reader.names"} ELSE {})
                       \cup (IF Ev.seqs # cur.want.seqs THEN {"Reader.residues"} ELSE {})
-                      \cup (IF Ev.gaps # cur.want.gaps THEN {"Reader.gaps"} ELSE {})))
+                      \cup (IF Ev.gaps # cur.want.gaps THEN {"Reader.gaps"} ELSE {})
+                      \cup (IF "status" \in DOMAIN Ev /\ Ev.gaps = cur.want.gaps /\ Ev.seqs = cur.want.seqs /\ Ev.status # AlignedStatus(cur.want)
+                            THEN {"Reader.aligned-status"} ELSE {})))
 TOther == /\ l <= Len(Trace) /\ ~(Ev.e = "File" \/ (Ev.e = "Ret" /\ Ev.op = "read") \/ (Ev.e = "Obj" /\ Ev.tag = "in" /\ cur.k = "file"))
           /\ l' = l + 1 /\ UNCHANGED <<cur, rc>> /\ viol' = {}
 Next == TFile \/ TRead \/ TIn \/ TOther
